@@ -342,6 +342,22 @@ impl<'ccx, 'tcx: 'ccx> TyGenContext<'ccx, 'tcx, '_> {
                 ));
                 returns_utf8_err = true;
             }
+            if let Type::Slice(hir::Slice::Strs(encoding)) = param.ty {
+                // std::string_view / std::u16string_view need not be laid out like the C view struct ({data, len}):
+                // libstdc++ stores the length first. Build the array of C views explicitly.
+                let c_view = match encoding {
+                    hir::StringEncoding::UnvalidatedUtf16 => "DiplomatString16View",
+                    _ => "DiplomatStringView",
+                };
+                param_validations.push(format!(
+                    "std::vector<diplomat::capi::{c_view}> {param}_views;\n{param}_views.reserve({param}.size());\nfor (const auto& {param}_view : {param}) {{\n  {param}_views.push_back({{{param}_view.data(), {param}_view.size()}});\n}}",
+                    param = param_name,
+                ));
+                cpp_to_c_params.push(
+                    format!("{{{param_name}_views.data(), {param_name}_views.size()}}").into(),
+                );
+                continue;
+            }
             let conversion = self.gen_cpp_to_c_for_type(&param.ty, param_name);
             cpp_to_c_params.push(conversion);
         }
